@@ -1076,7 +1076,7 @@ class HtmlBlock(BlockToken):
     @classmethod
     def start(cls, line):
         stripped = line.lstrip()
-        if len(line) - len(stripped) >= 4:
+        if len(line[:len(line) - len(stripped)].expandtabs(4)) >= 4:
             return False
         # rule 1: HTML tags designed to contain literal content, allow newlines in block
         match_obj = cls.multiblock.match(stripped)
